@@ -770,8 +770,9 @@ class StretchyTreeMatcher:
                     if not is_match:
                         break
                     # TODO: make this a smarter comparison, maybe handle dictionaries, f-strings, tuples, etc.
-                    if is_primitive(inssub_value):
-                        is_match = inssub_value == stdsub_value
+                    if not isinstance(inssub_value, ast.AST):
+                        is_match = (type(inssub_value) is type(stdsub_value) and
+                                    inssub_value == stdsub_value)
         if is_match:
             mapping = AstMap()  # return MAPPING
             mapping.add_node_pairing(ins_node, std_node)
